@@ -150,12 +150,6 @@ Qed.
 Lemma sp_lines_snd sp : sp_lines sp = map trim_space (map snd sp).
 Proof. unfold sp_lines. rewrite map_map. reflexivity. Qed.
 
-(* expected outputs: per id, nothing until the last chunk line of its run, the image there *)
-Fixpoint clean_stream_out (g : gfx) (T : nat) (ids : list Z) (sp : list (list (list Z) * list Z)) : list (list (list Z * gfx)) :=
-  match ids with
-  | [] => []
-  | i :: r => sp_outs (firstn T sp) [([i], gfx_norm g)] ++ clean_stream_out g T r (skipn T sp)
-  end.
 
 Lemma unspace_app a b : unspace (a ++ b) = unspace a ++ unspace b.
 Proof. unfold unspace. apply flat_map_app. Qed.
@@ -200,4 +194,49 @@ Proof.
       apply in_transfer_stable; [exact Hcmd | | intros _; constructor].
       intros _. apply range_ascii. eapply Forall_impl; [|apply forall_range_itoa]. intros; cbn in *; lia. unfold id_ok in Hi; lia.
     + split; [reflexivity|]. intros _. apply Hst. congruence.
+Qed.
+
+(* the statement in terms of the model's stream_from, with unrelated lines after the last run *)
+Theorem clean_stream_general ser g ids sp tail st :
+  gfx_ok g -> 1 <= zlen (g_data g) -> Forall id_ok ids ->
+  map snd sp = flat_map (gfx_lines g) ids -> sp_others_ok sp -> Forall other_line tail ->
+  stream_from ser st (unspace sp ++ tail)
+  = clean_stream_out g (Z.to_nat (total_lines (zlen (g_data g)))) ids sp ++ nones tail.
+Proof.
+  intros Hg Hl Hids Hsp Hoth Htail.
+  rewrite stream_from_rsteps, rsteps_app.
+  destruct (clean_stream_sp ser g Hg Hl ids sp Hids Hsp Hoth st) as [fin [Hfin _]]. rewrite Hfin.
+  destruct (rsteps_others_any ser tail [] Htail fin) as [st' Hst']. rewrite app_nil_r in Hst'.
+  rewrite Hst'. cbn [rsteps fst]. rewrite app_nil_r. reflexivity.
+Qed.
+
+(* no unrelated lines at all *)
+Definition plain_sp (ls : list (list Z)) : list (list (list Z) * list Z) := map (fun l => ([], l)) ls.
+
+Lemma unspace_plain ls : unspace (plain_sp ls) = ls.
+Proof. unfold unspace, plain_sp. induction ls; cbn; auto. f_equal. exact IHls. Qed.
+
+Theorem clean_stream_plain ser g ids st :
+  gfx_ok g -> 1 <= zlen (g_data g) -> Forall id_ok ids ->
+  stream_from ser st (flat_map (gfx_lines g) ids)
+  = clean_stream_out g (Z.to_nat (total_lines (zlen (g_data g)))) ids (plain_sp (flat_map (gfx_lines g) ids)).
+Proof.
+  intros Hg Hl Hids.
+  pose proof (clean_stream_general ser g ids (plain_sp (flat_map (gfx_lines g) ids)) [] st Hg Hl Hids) as H.
+  rewrite unspace_plain, !app_nil_r in H. apply H.
+  - unfold plain_sp. rewrite map_map. cbn [snd]. apply map_id.
+  - unfold sp_others_ok, plain_sp. apply Forall_forall. intros p Hp. apply in_map_iff in Hp.
+    destruct Hp as [l [<- _]]. constructor.
+  - constructor.
+Qed.
+
+(* and what that output is: [] for every line but the last of each id's run *)
+Lemma sp_outs_plain : forall ls final, ls <> [] ->
+  sp_outs (plain_sp ls) final = repeat [] (List.length ls - 1) ++ [final].
+Proof.
+  induction ls as [|l r IH]; intros final Hne; [congruence|].
+  destruct r as [|l2 r2]; [reflexivity|].
+  change (plain_sp (l :: l2 :: r2)) with (([], l) :: plain_sp (l2 :: r2)).
+  cbn [sp_outs fst nones map app]. rewrite IH by discriminate.
+  cbn [List.length Nat.sub repeat app]. rewrite Nat.sub_0_r. reflexivity.
 Qed.
